@@ -185,6 +185,24 @@ CLAIMS["C51"] = ("other", "must-pass clip rules, sibling/slot-table agreement, w
                  "matching address array. The PID arithmetic and the cable's zero force at rest are not decided.",
                  "Trusts clang's AST and the X-macro row dimensions.", "DESIGN.md 4/C51")
 
+CLAIMS["C01"] = ("other", "ownership/effect rules over the whole-engine call graph (static storage, nondeterminism sources), row-by-row coverage of "
+                 "struct mjData by the copy routine, arena-rewind/clear pairing",
+                 "Necessary structural conditions of determinism decided for all models and call sequences: nothing in the closure of "
+                 "mj_step/mj_forward/mj_inverse (760 functions) writes non-thread-local static storage or calls rand/time/getenv-like "
+                 "sources (log channel excepted); mj_copyData copies every member of mjData (whole-struct copy + one memcpy per X-macro row "
+                 "with the row's type and extent; struct members and rows agree both ways); every arena rewind is accompanied by clearing "
+                 "the arena-backed pointers. State tables, reset coverage and lazy flags are decided under C26/C04. Bit-identity of "
+                 "floating point and uninitialised reads are not decided.", "Trusts clang's AST; callbacks/plugins are external.",
+                 "DESIGN.md 4/C01")
+CLAIMS["C02"] = ("other", "effect rules over the call-graph closure of every function passed to mju_dispatch, typestate rule on mju_dispatch "
+                 "(frame/threadlock bracket) on the C++ AST",
+                 "Necessary structural conditions decided: code reachable from pool tasks (385 functions) never allocates from the arena, "
+                 "never dispatches or manages a pool, writes only thread-local statics and no scalar mjData member outside the stack "
+                 "allocator (whose atomic threadlock branch is decided under C19); mju_dispatch runs the pool dispatch only with a frame "
+                 "open and threadlock set and undoes both on every path; the serial fallback runs func(m,d,arg,0,i) for every i. "
+                 "Disjointness of task slices, data-race freedom in general and bit-identity are not decided.",
+                 "Trusts clang's AST; function-pointer edges are those of the repo's own tables.", "DESIGN.md 4/C02")
+
 NOT_APPLICABLE = {
     "C06": "numerical identities of M, LTDL and RNE over real-valued runtime data; no clause is visible in code shape",
     "C07": "'J equals the derivative of position' and proper-rotation claims are numerical; joint-type exhaustiveness is decided under C05",
